@@ -34,9 +34,25 @@ def cases(tier, seed):
         for k, (c1, c2) in enumerate(cgrid.pairs(w, 0)):
             if tier == "thorough" or k < 25 or k % NSLICES == sl:
                 yield {"w": w, "c1": c1, "c2": c2}
+    for c in _coupled():
+        yield c
     if tier == "thorough":
         for c in _level1(seed):
             yield c
+
+
+def _coupled():
+    """divisors whose two outputs x, y are coupled by a pair of guarantees (every sign / magnitude pattern of the
+    off-diagonal coefficients: cones with x + y unbounded, strips, boxes) and dividends that bound a combination of x, y
+    and a fresh output p: eliminating x and y from the dividend's guarantee needs both coupled rows at once (wave 6,
+    W6C02-B: the sign test of the context rows looked at the diagonal variable only)."""
+    for a in (-2, -1, -0.5, 0, 1):
+        for b in (-2, -1, -0.5, 0, 1):
+            for k in (0, 3):
+                div = {"i": ["i"], "o": ["x", "y"], "a": [[{"i": 1}, 1]], "g": [[{"x": 1, "y": a}, k], [{"y": 1, "x": b}, k]]}
+                for cx, cy in ((1, 1), (1, 2), (1, -1), (1, 0)):
+                    top = {"i": ["i"], "o": ["x", "y", "p"], "a": [[{"i": 1}, 1]], "g": [[{"x": cx, "y": cy, "p": 1}, 10]]}
+                    yield {"w": "coupled", "c1": div, "c2": top, "fam": "coupled"}
 
 
 def _level1(seed):
@@ -58,6 +74,10 @@ def _dividends(c1, c2):
     try:
         top = c1.compose(c2)
     except ValueError:
+        top = None
+    except Exception as e:  # the coupled family's operands share outputs: not composable, only the "unrelated" pairs apply
+        if type(e).__name__ != "IncompatibleArgsError":
+            raise
         top = None
     if top is not None:
         out.append(("composition", top))
